@@ -105,8 +105,9 @@ def AState.init : AState := { cur := Flat.init M, snaps := [] }
 /-- The specification of one history step. Rolling back to snapshot `k` makes the memory that snapshot again
 (and drops the snapshots taken after it, which are no longer ancestors). The two refusals of the implementation
 are part of this specification so that it can be stated for ALL histories: a snapshot whose heap pointer is
-below the current one (documented: "We only allow shrinking of the heap during rollback"), and a snapshot whose
-stack extent is above the current one (NOT documented — see `C23.rollback_full_statement_false`). -/
+below the current one (documented: "We only allow shrinking of the heap during rollback"), and — only while the
+code has the shape flagged by `Gen.rollbackSlicesCurrentStackToSp` — a snapshot whose stack extent is above the
+current one (NOT documented — see `C23.rollback_full_statement_false`). -/
 def stepA (s : AState) : Op → AState × Out
   | .reset => ({ s with cur := s.cur.reset M }, .ok)
   | .growStack n =>
@@ -139,7 +140,7 @@ def stepA (s : AState) : Op → AState × Out
     | none => (s, .noSlot)
     | some snap =>
       if s.cur.sameAccessible M snap then (s, .noChange)
-      else if snap.hp < s.cur.hp ∨ snap.sl > s.cur.sl then (s, .err .RustPanic)
+      else if snap.hp < s.cur.hp ∨ (Gen.rollbackSlicesCurrentStackToSp = true ∧ snap.sl > s.cur.sl) then (s, .err .RustPanic)
       else ({ cur := snap, snaps := s.snaps.take (k + 1) }, .ok)
 
 def runA : AState → List Op → AState × List Out
